@@ -229,7 +229,7 @@ func alnWindowSession(r *obs.Run, which string, aa alnAlpha) {
 
 // ---- large tables ----
 
-// alnBigCase aligns sequences far longer than the random cases: kind 0 two related sequences of 600..1000 letters
+// alnBigCase aligns sequences far longer than the random cases: kind 0 two related sequences of some 520..1000 letters, met by every aligner in both orders
 // (tables of up to a million cells), the other kinds a sequence of 66000..75000 letters against 1..3 letters
 // (coordinates beyond 16 bits), in either order.
 func alnBigCase(r *obs.Run, which string, kind int, alg string) {
@@ -245,9 +245,9 @@ func alnBigCase(r *obs.Run, which string, kind int, alg string) {
 	}
 	var x, y []byte
 	if kind == 0 {
-		x = gen(600 + rng.Intn(401))
-		a := rng.Intn(len(x) / 4)
-		y = append([]byte(nil), x[a:len(x)-rng.Intn(len(x)/4)]...)
+		x = gen(740 + rng.Intn(261))
+		a := rng.Intn(len(x) / 8)
+		y = append([]byte(nil), x[a:len(x)-rng.Intn(len(x)/8)]...)
 		for k := 0; k < len(y)/12; k++ {
 			p := rng.Intn(len(y) - 1)
 			switch rng.Intn(3) {
@@ -262,7 +262,7 @@ func alnBigCase(r *obs.Run, which string, kind int, alg string) {
 		for len(y) > 1000 {
 			y = y[:1000]
 		}
-		r.Count("pairs_of_600_to_1000_letters", 1)
+		r.Count("pairs_of_520_to_1000_letters", 1)
 	} else {
 		x, y = gen(66000+rng.Intn(9001)), gen(1+rng.Intn(3))
 		r.Count("pairs_with_a_sequence_beyond_65535_letters", 1)
@@ -270,13 +270,27 @@ func alnBigCase(r *obs.Run, which string, kind int, alg string) {
 	if rng.Intn(2) == 0 {
 		x, y = y, x
 	}
-	open := 0
-	if alnAffine(alg) {
-		open = -rng.Intn(12)
+	algs := []string{alg}
+	if kind == 0 {
+		// every aligner meets every long pair, in both orders: a table blocked into strips of some hundred rows or
+		// columns is then reached whichever aligner has the turn
+		algs = alnAlgs
 	}
-	c := alnCase{Alg: alg, Alphabet: aa.name, Matrix: M, MatrixID: "random/large-table", Open: open, R: string(x), Q: string(y)}
-	nt := alnCheck(r, which, c, aa.a, M)
-	r.Note(fmt.Sprintf("big/%s/%d/%x/%x/%x", alg, open, hashBytes(x), hashBytes(y), hashBytes([]byte(fmt.Sprint(M)))), nt)
+	for _, alg := range algs {
+		open := 0
+		if alnAffine(alg) {
+			open = -rng.Intn(12)
+		}
+		for o := 0; o < len(algs) && o < 2; o++ {
+			c := alnCase{Alg: alg, Alphabet: aa.name, Matrix: M, MatrixID: "random/large-table", Open: open, R: string(x), Q: string(y)}
+			nt := alnCheck(r, which, c, aa.a, M)
+			r.Note(fmt.Sprintf("big/%s/%d/%x/%x/%x", alg, open, hashBytes(x), hashBytes(y), hashBytes([]byte(fmt.Sprint(M)))), nt)
+			if kind == 0 {
+				r.Count("long_pair_alignments", 1)
+			}
+			x, y = y, x
+		}
+	}
 }
 
 // alnLargeOpens are gap-open penalties a caller uses to make gaps rare or to forbid them.
